@@ -47,14 +47,14 @@ theorem conAdd_refines {o : Opts} {e : Bool} {pc val : Node} {key : Bytes}
 /-! ### get -/
 
 theorem conGet_refines {o : Opts} {e : Bool} {pc : Node} {key : Bytes} (s : Node)
-    (h : Inv e pc) (hc : isCon pc = true) (hk : key ≠ []) :
+    (h : Inv e pc) (hc : isCon pc = true) :
     match Spec.getIn (specOpts o) false (den pc) key with
     | .ok (_, v) => ∃ n, conGet o s pc key = .ok n ∧ Inv e n ∧ den n = v
     | .fail _ => ∃ err, conGet o s pc key = .err err
     | .unspec => True := by
   cases pc with
   | doc keys obj =>
-    rw [den_doc_inv h, conGet_doc o s keys obj key hk]
+    rw [den_doc_inv h, conGet_doc o s keys obj key]
     simp only [Spec.getIn, lookupN_denM]
     rw [Inv_doc] at h
     cases hl : lookupN key obj with
@@ -63,7 +63,7 @@ theorem conGet_refines {o : Opts} {e : Bool} {pc : Node} {key : Bytes} (s : Node
   | ary ns =>
     rw [den_ary]
     simp only [Spec.getIn, denL_length, specOpts_neg]
-    have := conGet_ary o s ns key hk
+    have := conGet_ary o s ns key
     cases hr : Spec.readIdx o.neg ns.length key with
     | unspec => trivial
     | bad => rw [hr] at this; exact this
@@ -80,7 +80,7 @@ theorem conGet_refines {o : Opts} {e : Bool} {pc : Node} {key : Bytes} (s : Node
 
 /-- `get` as `test` uses it: an absent member reads as null, through `ErrMissing` -/
 theorem conGet_refines_test {o : Opts} {e : Bool} {pc : Node} {key : Bytes} (s : Node)
-    (h : Inv e pc) (hc : isCon pc = true) (hk : key ≠ []) :
+    (h : Inv e pc) (hc : isCon pc = true) :
     match Spec.getIn (specOpts o) true (den pc) key with
     | .ok (_, v) => (∃ n, conGet o s pc key = .ok n ∧ Inv e n ∧ den n = v) ∨
         (conGet o s pc key = .err .missing ∧ v = .null)
@@ -88,7 +88,7 @@ theorem conGet_refines_test {o : Opts} {e : Bool} {pc : Node} {key : Bytes} (s :
     | .unspec => True := by
   cases pc with
   | doc keys obj =>
-    rw [den_doc_inv h, conGet_doc o s keys obj key hk]
+    rw [den_doc_inv h, conGet_doc o s keys obj key]
     simp only [Spec.getIn, lookupN_denM]
     rw [Inv_doc] at h
     cases hl : lookupN key obj with
@@ -98,7 +98,7 @@ theorem conGet_refines_test {o : Opts} {e : Bool} {pc : Node} {key : Bytes} (s :
     rw [den_ary]
     simp only [Spec.getIn, denL_length, specOpts_neg]
     have hcases := readIdx_cases o.neg ns.length key
-    have := conGet_ary o s ns key hk
+    have := conGet_ary o s ns key
     cases hr : Spec.readIdx o.neg ns.length key with
     | unspec => trivial
     | bad =>
@@ -108,7 +108,7 @@ theorem conGet_refines_test {o : Opts} {e : Bool} {pc : Node} {key : Bytes} (s :
       -- on an array `get` never answers ErrMissing
       intro hm
       subst hm
-      simp only [conGet, hk, if_false] at herr
+      simp only [conGet] at herr
       split at herr
       · cases herr
       · split at herr
